@@ -33,7 +33,7 @@ echo "demo with change: exit $WITH (want != 0); without: exit $WITHOUT (want 0);
 RES=""
 cd /verif
 for c in $CHECKS; do
-  ./check_against.sh $SV $c quick > $OUT/check_$c.log 2>&1; rc=$?
+  VERIF_OUTDIR=/tmp/vout.$ID ./check_against.sh $SV $c quick > $OUT/check_$c.log 2>&1; rc=$?
   v=$(grep -c '^VIOLATION' $OUT/check_$c.log)
   cl=$(grep -o 'clause=[^ ]*' $OUT/check_$c.log | sort -u | tr '\n' ' ')
   echo "check $c: exit $rc, $v violation lines, $cl"
@@ -52,4 +52,6 @@ cat > $OUT/meta.json <<EOM
  "checks": [${RES%,}]
 }
 EOM
-find /verif/replays -name '*.json' -newer $OUT/patch.diff -delete
+# keep the first replay of each check as the record of the catch
+for c in $CHECKS; do f=$(ls /tmp/vout.$ID/replays/$c-*.json 2>/dev/null | head -1); [ -n "$f" ] && cp $f $OUT/caught_by_$c.replay.json; done
+rm -rf /tmp/vout.$ID
